@@ -398,10 +398,10 @@ def _optimiser_table(fi):
     return out
 
 
-def rule_optimiser(ctx):
+def rule_optimiser(ctx, rule_id="C12.optimiser-table"):
     run = ctx.run
     prog = ctx.prog
-    R = "C12.optimiser-table"
+    R = rule_id
     fi = prog.func(FS + "::_find_search_optimizations")
     rel = fi.module.relpath
     table = _optimiser_table(fi)
